@@ -5,6 +5,7 @@ package main
 import (
 	"fmt"
 	"go/ast"
+	"go/types"
 	"strings"
 
 	"golang.org/x/tools/go/ssa"
@@ -41,11 +42,23 @@ func ruleExpand(e *Engine, r *Reporter) {
 					}
 					// callee of the return statement
 					callee := ""
+					var calleeFn *ssa.Function
 					for _, st := range cc.Body {
 						if rs, ok := st.(*ast.ReturnStmt); ok && len(rs.Results) == 1 {
 							if call, ok := rs.Results[0].(*ast.CallExpr); ok {
-								if sel, ok := call.Fun.(*ast.SelectorExpr); ok {
-									callee = sel.Sel.Name
+								// a method of the query or a package-level function: resolved through the type checker
+								var id *ast.Ident
+								switch fx := call.Fun.(type) {
+								case *ast.SelectorExpr:
+									id = fx.Sel
+								case *ast.Ident:
+									id = fx
+								}
+								if id != nil {
+									callee = id.Name
+									if fo, ok := p.TypesInfo.Uses[id].(*types.Func); ok {
+										calleeFn = e.FnOf(fo)
+									}
 								}
 							}
 						}
@@ -58,7 +71,7 @@ func ruleExpand(e *Engine, r *Reporter) {
 						kind := typeBaseName(tv.Type)
 						seenCase[kind] = true
 						exp := want[kind]
-						fn := e.FuncOpt("pkg/server/commands", "ExpandQuery."+callee)
+						fn := calleeFn
 						key := "resolveUserset case " + kind
 						if fn == nil || exp == "" {
 							r.Bad(key, e.pos(cc.Pos()), "case does not return the result of an ExpandQuery resolver")
@@ -77,6 +90,7 @@ func ruleExpand(e *Engine, r *Reporter) {
 							if strings.Contains(d, "Name=commands.toObjectRelation(arg") {
 								named = true
 							}
+							_ = d
 						}
 						r.Check(ok && named, key, e.pos(cc.Pos()), fmt.Sprintf("%s builds %s named after the expanded object#relation", callee, exp), fmt.Sprintf("the %s rewrite is resolved by %s, which does not build a %s node named toObjectRelation(tk) (kind ok: %v, name ok: %v)", kind, callee, exp, ok, named))
 					}
